@@ -128,7 +128,7 @@ pub fn rand_free_operand(r: &mut Rng) -> Option<Operand> {
     let n = 1 + r.below(3);
     let mut alts = vec![];
     for _ in 0..n {
-        let a = crate::gen::rand_version(r, r.clone().chance(2, 3)).no_build();
+        let a = crate::gen::rand_version_mix(r, 2, 3).no_build();
         let b = if r.chance(1, 3) {
             let mut b = a.clone();
             b.pre = crate::gen::rand_ids(r, 2);
